@@ -193,6 +193,13 @@ func (m *Model) snapDir() string {
 
 func (m *Model) lenient() bool { return m.Lenient != nil && m.Lenient() }
 
+// did counts an oracle comparison that was really carried out (evidence that a clause is not vacuous).
+func (m *Model) did(what string) {
+	if m.St != nil {
+		m.St.Label("oracle: " + what)
+	}
+}
+
 func (m *Model) tr(format string, a ...any) {
 	if len(m.Trace) < 400 {
 		m.Trace = append(m.Trace, fmt.Sprintf(format, a...))
@@ -730,6 +737,7 @@ func (m *Model) readDir(c *Conn, what string) error {
 		if mtime != t.mtime {
 			return failf("listing-attrs", "%s: entry %q mtime %d, truth %d", what, name, mtime, t.mtime)
 		}
+		m.did("listed entry compared with the directory")
 	}
 	missing := false
 	for name := range rem {
@@ -1281,6 +1289,7 @@ func (m *Model) readFile(c *Conn, r Req, what string) error {
 	if ok, d := objMatch(m.ro.obj, int64(r.Off), body); !ok {
 		return failf("read-bytes", "%s: body differs from the object's bytes at +%d", what, d)
 	}
+	m.did("read bytes compared with the object")
 	return nil
 }
 
@@ -1593,6 +1602,7 @@ func (m *Model) write(c *Conn, r Req, pr *pre, what string) error {
 			if !bytes.Equal(buf, r.Payload()) {
 				return failf("write-effect", "%s: stored bytes differ from the payload at +%d", what, firstDiff(buf, r.Payload()))
 			}
+			m.did("uploaded bytes compared with the file")
 		}
 	}
 	return nil
